@@ -133,6 +133,24 @@ def h_corrupt(tamper: int, restore_mode: bool, warm: bool, relink: bool) -> bool
             elif QUERY == "add_verify":
                 cache.add(corrupt_src, env.fs, oid, verify=True)
                 outcome = "added"
+            elif QUERY == "fetch":
+                # index-level fetch from a verifying remote that holds a damaged object into a verifying cache
+                from dvc_data.index import DataIndex, DataIndexEntry, ObjectStorage
+                from dvc_data.index.collect import collect
+                from dvc_data.index.fetch import fetch
+
+                with NoTracing():
+                    remote = env.remote_odb("rem", verify=True) if CLS == "local" else env.base_odb("rem", verify=True)
+                    env.write(remote.oid_to_path(oid), tdata, fs=remote.fs)
+                    env.write(remote.oid_to_path(oid2), OTHER_OK, fs=remote.fs)
+                    vcache = env.local_odb("vcache", verify=True)
+                    idx = DataIndex()
+                    idx[("obj",)] = DataIndexEntry(key=("obj",), meta=None, hash_info=HashInfo("md5", oid))
+                    idx[("other",)] = DataIndexEntry(key=("other",), meta=None, hash_info=HashInfo("md5", oid2))
+                    idx.storage_map.add_cache(ObjectStorage((), vcache))
+                    idx.storage_map.add_remote(ObjectStorage((), remote))
+                fetch(collect([idx], "remote"))
+                outcome = "fetched"
         except HarnessGap:
             raise
         except (PromptError, LinkError) as e:
@@ -144,7 +162,15 @@ def h_corrupt(tamper: int, restore_mode: bool, warm: bool, relink: bool) -> bool
         with NoTracing():
             present = env.exists(path)
             cur = env.read(path) if present else None
-            if QUERY == "add_verify":
+            if QUERY == "fetch":
+                got = env.odb_objects(vcache)
+                if oid in got and hashlib.md5(got[oid]).hexdigest() != oid.split(".")[0]:
+                    violation("verifying-store-retained-mismatching-object", ("fetch", oid))
+                if got.get(oid2) != OTHER_OK:
+                    violation("intact-object-not-fetched", oid2)
+                if not tampered and got.get(oid) != data:
+                    violation("intact-object-not-fetched", oid)
+            elif QUERY == "add_verify":
                 if present and hashlib.md5(cur).hexdigest() != oid.split(".")[0]:
                     violation("verifying-store-retained-mismatching-object", oid)
             elif QUERY == "checkout":
